@@ -586,8 +586,7 @@ func (e *Enc) mapLen(st *State, mt *types.Map, m *smt.Term) *smt.Term {
 	dom := c.Select(dh, m)
 	n := c.App("maplen:"+typeStr(mt.Key()), smt.BV(64), dom)
 	// len == 0 iff empty; nil map has len 0
-	e.assume(st, c.Cmp("bvult", n, e.bv64(1<<62)))
-	e.assume(st, c.Implies(c.Eq(m, e.bv64(0)), c.True()))
+	e.assume(st, c.Cmp("bvult", n, e.bv64(1<<40)))
 	e.addAxiomOnce("maplen-empty:"+typeStr(mt.Key()), c.Eq(c.App("maplen:"+typeStr(mt.Key()), smt.BV(64), c.ConstArray(ds.Elem, c.False())), e.bv64(0)))
 	return c.Ite(c.Eq(m, e.bv64(0)), e.bv64(0), n)
 }
@@ -661,7 +660,8 @@ func (e *Enc) appendOp(fr *Frame, st *State, cc *ssa.CallCommon, args []*Val, po
 	e.copyElems(b, pre, elemT, nObj, e.bv64(0), sObj, sOff, sLen)
 	e.copyElems(b, pre, elemT, nObj, sLen, tObj, tOff, tLen)
 	nCap := c.Fresh("appendcap", smt.BV(64))
-	e.assume(b, c.And(c.Cmp("bvuge", nCap, newLen), c.Cmp("bvult", nCap, e.bv64(1<<62))))
+	// an allocation of 2^40 or more elements does not succeed (listed assumption)
+	e.assume(b, c.And(c.Cmp("bvuge", nCap, newLen), c.Cmp("bvult", nCap, e.bv64(1<<40))))
 	resB := e.mkSlice(nObj, e.bv64(0), newLen, nCap)
 	m := e.mergeStates(a.Reach, a, b)
 	st.Heaps, st.Alloc, st.Reach = m.Heaps, m.Alloc, m.Reach
